@@ -650,4 +650,319 @@ def instantiateParam (σ : Name → Option TP) : Param → Param
   | .input t => .input (instantiateT σ t)
   | .scalar s => .scalar s
 
+/-! ## instantiating ONE time-series variable by a pattern with fresh variables -/
+
+/-- the substitution `x ↦ r` -/
+def single (x : Name) (r : TP) : Name → Option TP := fun n => if n = x then some r else none
+
+mutual
+/-- the key `ts:x` occurs in `p` only as the unconstrained variable `~x` -/
+def plainT (x : Name) : TP → Bool
+  | .var n cs => decide (n ≠ x) || cs.isEmpty
+  | .tsbVar n => decide (n ≠ x)
+  | .tsl e _ => plainT x e
+  | .tsd _ v => plainT x v
+  | .tsb fs => plainFields x fs
+  | .ref t => plainT x t
+  | .conc _ => true
+  | .ts _ => true
+  | .tss _ => true
+  | .tsw _ _ => true
+  | .signal => true
+def plainFields (x : Name) : PFields → Bool
+  | .nil => true
+  | .cons _ p rest => plainT x p && plainFields x rest
+end
+
+mutual
+/-- number of occurrences of the variable `~x` -/
+def occT (x : Name) : TP → Nat
+  | .var n _ => if n = x then 1 else 0
+  | .tsl e _ => occT x e
+  | .tsd _ v => occT x v
+  | .tsb fs => occFields x fs
+  | .ref t => occT x t
+  | .tsbVar _ => 0
+  | .conc _ => 0
+  | .ts _ => 0
+  | .tss _ => 0
+  | .tsw _ _ => 0
+  | .signal => 0
+def occFields (x : Name) : PFields → Nat
+  | .nil => 0
+  | .cons _ p rest => occT x p + occFields x rest
+end
+
+def plainParam (x : Name) : Param → Bool
+  | .input t => plainT x t
+  | .scalar _ => true
+
+def occParam (x : Name) : Param → Nat
+  | .input t => occT x t
+  | .scalar _ => 0
+
+def occParams (x : Name) : List Param → Nat
+  | [] => 0
+  | p :: ps => occParam x p + occParams x ps
+
+mutual
+theorem structT_instantiate (x : Name) (r : TP) : ∀ q : TP,
+    structT (instantiateT (single x r) q) = structT q + occT x q * structT r
+  | .var n cs => by
+    simp only [instantiateT, single, occT]
+    by_cases h : n = x <;> simp [h, structT]
+  | .tsl e _ => by simp only [instantiateT, structT, occT, structT_instantiate x r e]; omega
+  | .tsd _ e => by simp only [instantiateT, structT, occT, structT_instantiate x r e]; omega
+  | .tsb fs => by simp only [instantiateT, structT, occT, structFields_instantiate x r fs]; omega
+  | .ref t => by simp only [instantiateT, structT, occT, structT_instantiate x r t]
+  | .tsbVar _ => by simp [instantiateT, structT, occT]
+  | .conc _ => by simp [instantiateT, structT, occT]
+  | .ts _ => by simp [instantiateT, structT, occT]
+  | .tss _ => by simp [instantiateT, structT, occT]
+  | .tsw _ _ => by simp [instantiateT, structT, occT]
+  | .signal => by simp [instantiateT, structT, occT]
+theorem structFields_instantiate (x : Name) (r : TP) : ∀ fs : PFields,
+    structFields (instantiateFields (single x r) fs) = structFields fs + occFields x fs * structT r
+  | .nil => by simp [instantiateFields, structFields, occFields]
+  | .cons _ p rest => by
+    simp only [instantiateFields, structFields, occFields, structT_instantiate x r p,
+      structFields_instantiate x r rest, Nat.add_mul]
+    omega
+end
+
+theorem structParams_instantiate (x : Name) (r : TP) : ∀ ps : List Param,
+    structParams (ps.map (instantiateParam (single x r))) = structParams ps + occParams x ps * structT r
+  | [] => by simp [structParams, occParams]
+  | p :: ps => by
+    simp only [List.map_cons, structParams, occParams, structParams_instantiate x r ps, Nat.add_mul]
+    cases p with
+    | input t => simp only [instantiateParam, structParam, occParam, structT_instantiate x r t]; omega
+    | scalar s => simp [instantiateParam, structParam, occParam]
+
+/-! ### `optMin` algebra -/
+
+theorem optMin_comm (a b : Option Nat) : optMin a b = optMin b a := by
+  cases a <;> cases b <;> simp [optMin, Nat.min_comm]
+
+theorem optMin_swap4 (a b c d : Option Nat) :
+    optMin (optMin a b) (optMin c d) = optMin (optMin a c) (optMin b d) := by
+  rw [optMin_assoc, optMin_assoc, ← optMin_assoc b c d, optMin_comm b c, optMin_assoc c b d]
+
+theorem optMin_self (a : Option Nat) : optMin a a = a := by cases a <;> simp [optMin]
+
+theorem optMin_distrib (s a b : Option Nat) : optMin s (optMin a b) = optMin (optMin s a) (optMin s b) := by
+  rw [optMin_swap4, optMin_self]
+
+theorem decay_min (a b : Nat) : decay (min a b) = min (decay a) (decay b) := by
+  simp only [decay]
+  omega
+
+/-- a key's stored budget is a min-preserving function of the budget the pattern is collected at -/
+def MinPreserving (g : Nat → Option Nat) : Prop := ∀ a b, g (min a b) = optMin (g a) (g b)
+
+theorem keyRankS_minPreserving (k : Key) (p : SP) : MinPreserving (keyRankS k p) := by
+  intro a b
+  cases p with
+  | conc s => simp [keyRankS]
+  | var n cs =>
+    simp only [keyRankS]
+    split
+    · split <;> simp [optMin, decay_min]
+    · rfl
+
+mutual
+theorem keyRankT_minPreserving (k : Key) : ∀ p : TP, MinPreserving (keyRankT k p)
+  | .var n cs => by
+    intro a b
+    simp only [keyRankT]
+    split
+    · split <;> simp [optMin, decay_min]
+    · rfl
+  | .conc _ => by intro a b; simp [keyRankT]
+  | .signal => by intro a b; simp [keyRankT]
+  | .ts s => by intro a b; simp only [keyRankT]; exact (optMin_self _).symm
+  | .tss s => by intro a b; simp only [keyRankT]; exact (optMin_self _).symm
+  | .tsw s _ => by intro a b; simp only [keyRankT]; exact (optMin_self _).symm
+  | .tsl e _ => by
+    intro a b
+    simp only [keyRankT, decay_min]
+    exact keyRankT_minPreserving k e _ _
+  | .tsd s e => by
+    intro a b
+    simp only [keyRankT, decay_min]
+    rw [keyRankT_minPreserving k e _ _, optMin_distrib]
+  | .tsbVar n => by
+    intro a b
+    simp only [keyRankT]
+    split
+    · simp [optMin, decay_min]
+    · rfl
+  | .tsb fs => by
+    intro a b
+    simp only [keyRankT, decay_min]
+    exact keyRankFields_minPreserving k fs _ _
+  | .ref t => by
+    intro a b
+    simp only [keyRankT]
+    exact keyRankT_minPreserving k t a b
+theorem keyRankFields_minPreserving (k : Key) : ∀ fs : PFields, MinPreserving (keyRankFields k fs)
+  | .nil => by intro a b; simp [keyRankFields]
+  | .cons _ p rest => by
+    intro a b
+    simp only [keyRankFields]
+    rw [keyRankT_minPreserving k p a b, keyRankFields_minPreserving k rest a b, optMin_swap4]
+end
+
+theorem bind_optMin {g : Nat → Option Nat} (hg : MinPreserving g) (a b : Option Nat) :
+    (optMin a b).bind g = optMin (a.bind g) (b.bind g) := by
+  cases a with
+  | none => simp
+  | some u =>
+    cases b with
+    | none => simp
+    | some w => simp [optMin, hg u w]
+
+/-- hide the key of the instantiated variable -/
+def mask (x : Name) (k : Key) (a : Option Nat) : Option Nat := if k = .ts x then none else a
+
+theorem mask_optMin (x : Name) (k : Key) (a b : Option Nat) :
+    mask x k (optMin a b) = optMin (mask x k a) (mask x k b) := by
+  unfold mask; split <;> simp
+
+theorem keyRankS_ts (x : Name) (s : SP) (v : Nat) : keyRankS (.ts x) s v = none := by
+  cases s <;> simp [keyRankS]
+
+theorem mask_keyRankS (x : Name) (k : Key) (s : SP) (v : Nat) : mask x k (keyRankS k s v) = keyRankS k s v := by
+  unfold mask
+  split
+  · rename_i h; subst h; rw [keyRankS_ts]
+  · rfl
+
+mutual
+/-- what instantiating `x ↦ r` does to the stored budget of any key -/
+theorem keyRankT_instantiate (x : Name) (r : TP) (k : Key) : ∀ (q : TP) (v : Nat), plainT x q = true →
+    keyRankT k (instantiateT (single x r) q) v =
+      optMin (mask x k (keyRankT k q v)) ((keyRankT (.ts x) q v).bind (keyRankT k r))
+  | .var n cs, v, hp => by
+    simp only [plainT, Bool.or_eq_true, decide_eq_true_eq] at hp
+    simp only [instantiateT, single]
+    by_cases h : n = x
+    · subst h
+      have hcs : cs.isEmpty = true := by
+        rcases hp with hp | hp
+        · exact absurd rfl hp
+        · exact hp
+      simp only [if_true, keyRankT, hcs, mask]
+      by_cases hk : k = .ts n
+      · subst hk; simp
+      · simp [hk]
+    · have hne : ¬ (Key.ts x = Key.ts n) := by
+        intro he; injection he with he; exact h he.symm
+      simp only [h, if_false, keyRankT, mask, hne, Option.bind_none, optMin_none_right]
+      by_cases hk : k = .ts x
+      · subst hk; simp [hne]
+      · simp [hk]
+  | .tsbVar n, v, hp => by
+    simp only [plainT, decide_eq_true_eq] at hp
+    have hne : ¬ (Key.ts x = Key.ts n) := by
+      intro he; injection he with he; exact hp he.symm
+    simp only [instantiateT, keyRankT, mask, hne, if_false, Option.bind_none, optMin_none_right]
+    by_cases hk : k = .ts x
+    · subst hk; simp [hne]
+    · simp [hk]
+  | .conc _, v, _ => by simp [instantiateT, keyRankT, mask]
+  | .signal, v, _ => by simp [instantiateT, keyRankT, mask]
+  | .ts s, v, _ => by simp only [instantiateT, keyRankT, keyRankS_ts, mask_keyRankS]; simp
+  | .tss s, v, _ => by simp only [instantiateT, keyRankT, keyRankS_ts, mask_keyRankS]; simp
+  | .tsw s _, v, _ => by simp only [instantiateT, keyRankT, keyRankS_ts, mask_keyRankS]; simp
+  | .tsl e _, v, hp => by
+    simp only [plainT] at hp
+    simp only [instantiateT, keyRankT]
+    exact keyRankT_instantiate x r k e _ hp
+  | .tsd s e, v, hp => by
+    simp only [plainT] at hp
+    simp only [instantiateT, keyRankT, keyRankS_ts, optMin_none_left]
+    rw [keyRankT_instantiate x r k e _ hp, mask_optMin, mask_keyRankS, optMin_assoc]
+  | .tsb fs, v, hp => by
+    simp only [plainT] at hp
+    simp only [instantiateT, keyRankT]
+    exact keyRankFields_instantiate x r k fs _ hp
+  | .ref t, v, hp => by
+    simp only [plainT] at hp
+    simp only [instantiateT, keyRankT]
+    exact keyRankT_instantiate x r k t v hp
+theorem keyRankFields_instantiate (x : Name) (r : TP) (k : Key) : ∀ (fs : PFields) (v : Nat),
+    plainFields x fs = true →
+    keyRankFields k (instantiateFields (single x r) fs) v =
+      optMin (mask x k (keyRankFields k fs v)) ((keyRankFields (.ts x) fs v).bind (keyRankT k r))
+  | .nil, v, _ => by simp [instantiateFields, keyRankFields, mask]
+  | .cons _ p rest, v, hp => by
+    simp only [plainFields, Bool.and_eq_true] at hp
+    simp only [instantiateFields, keyRankFields]
+    rw [keyRankT_instantiate x r k p v hp.1, keyRankFields_instantiate x r k rest v hp.2, mask_optMin,
+      bind_optMin (keyRankT_minPreserving k r), optMin_swap4]
+end
+
+def plainParams (x : Name) : List Param → Bool
+  | [] => true
+  | p :: ps => plainParam x p && plainParams x ps
+
+theorem keyRankParams_instantiate (x : Name) (r : TP) (k : Key) : ∀ ps : List Param, plainParams x ps = true →
+    keyRankParams k (ps.map (instantiateParam (single x r))) =
+      optMin (mask x k (keyRankParams k ps)) ((keyRankParams (.ts x) ps).bind (keyRankT k r))
+  | [], _ => by simp [keyRankParams, mask]
+  | p :: ps, hp => by
+    simp only [plainParams, Bool.and_eq_true] at hp
+    simp only [List.map_cons, keyRankParams]
+    rw [keyRankParams_instantiate x r k ps hp.2, mask_optMin, bind_optMin (keyRankT_minPreserving k r)]
+    have : keyRankParam k (instantiateParam (single x r) p) =
+        optMin (mask x k (keyRankParam k p)) ((keyRankParam (.ts x) p).bind (keyRankT k r)) := by
+      cases p with
+      | input t => exact keyRankT_instantiate x r k t _ hp.1
+      | scalar s => simp [instantiateParam, keyRankParam, keyRankS_ts, mask_keyRankS]
+    rw [this, optMin_swap4]
+
+/-- an accumulator each of whose entries appears in one of two others sums to at most their sum -/
+theorem sumVals_le_of_cover : ∀ (l' l1 l2 : List (Key × Nat)), (keysOf l').Nodup →
+    (∀ k v, lookup l' k = some v → lookup l1 k = some v ∨ lookup l2 k = some v) →
+    sumVals l' ≤ sumVals l1 + sumVals l2
+  | [], _, _, _, _ => by simp [sumVals]
+  | (k, v) :: rest, l1, l2, hnd, hc => by
+    simp only [keysOf, List.map_cons, List.nodup_cons] at hnd
+    have hrest : ∀ k' v', lookup rest k' = some v' → k' ≠ k ∧ lookup ((k, v) :: rest) k' = some v' := by
+      intro k' v' h'
+      have hne : k' ≠ k := by
+        intro he
+        subst he
+        have : lookup rest k' ≠ none := by rw [h']; simp
+        exact this (lookup_eq_none_iff.mpr hnd.1)
+      refine ⟨hne, ?_⟩
+      simp only [lookup]
+      have : ¬ k = k' := fun h => hne h.symm
+      simp [this, h']
+    simp only [sumVals]
+    rcases hc k v (by simp [lookup]) with h1 | h2
+    · rw [sumVals_erase h1]
+      have ih := sumVals_le_of_cover rest (eraseKey k l1) l2 hnd.2 (by
+        intro k' v' h'
+        obtain ⟨hne, hl⟩ := hrest k' v' h'
+        rw [lookup_erase_ne hne]
+        exact hc k' v' hl)
+      omega
+    · rw [sumVals_erase h2]
+      have ih := sumVals_le_of_cover rest l1 (eraseKey k l2) hnd.2 (by
+        intro k' v' h'
+        obtain ⟨hne, hl⟩ := hrest k' v' h'
+        rw [lookup_erase_ne hne]
+        exact hc k' v' hl)
+      omega
+
+/-- the variable cost of a pattern collected on its own at budget `b` -/
+def varCost (r : TP) (b : Nat) : Nat := sumVals (collectT r {} b).vars
+
+theorem lookup_collect_fresh (r : TP) (b : Nat) (k : Key) :
+    lookup (collectT r {} b).vars k = keyRankT k r b := by
+  have := (collectT_spec r {} b (by simp [AccOk, keysOf])).2.2 k
+  simpa [lookup] using this
+
 end HgVerif.Dispatch
